@@ -845,6 +845,24 @@ pub fn c06_cases(c: &Corpus, quick: bool) -> Vec<IoRun> {
         p.push(po(op));
         out.push(IoRun { pool: p, ..Default::default() });
     }
+    // value() of gadget variables allocated from valid and invalid field elements (both allocation modes)
+    {
+        let f = fq();
+        let mut ss: Vec<[u8; 32]> = c.valid.iter().take(6).cloned().collect();
+        ss.extend(c.nonsquare.iter().take(6).cloned());
+        ss.extend(c.table_probe().iter().take(8).cloned());
+        for k in [1u32, 2, 3, 4, 6, 9, 18] {
+            ss.push(le32(&BigUint::from(k)).unwrap());
+        }
+        ss.push(le32(&(&f.p - 1u32)).unwrap());
+        for b in ss {
+            for input in [false, true] {
+                let mut p = base.clone();
+                p.push(po(EOp::GadgetValue(hex(&b), input)));
+                out.push(IoRun { pool: p, ..Default::default() });
+            }
+        }
+    }
     // every operator form on (identity-ish, generator-ish, generic) operand pairs, with a zero, a small and a large scalar
     for k in 0u8..24 {
         for (i, j) in [(0usize, 0usize), (0, 2), (2, 0), (1, 2), (2, 2)] {
